@@ -98,4 +98,11 @@ body = must(body, "theorem nu_trEmitPacket {w0 w : World} (ti : Nat) (pk : Pkt) 
 body = must(body, "  · exact nu_candOnPacket _ _ h\n", "  · exact nu_candOnPacket _ _ hp h\n")
 UH = rd('EIO/Lemmas/Upg.lean'); UH = UH[:UH.index('structure NU')]
 wr('EIO/Lemmas/Upg.lean', UH + body + '\nend EIO.Ses\n')
+
+# ---- Hb.lean chain (HbLog.lean): no `heartbeat` entry ------------------------------------------------------
+body = cut(cut(NCBODY, "nc_sockOnPacket", "nc_emitHeaders"), "nc_pollDeliver", "nc_wsDrop") + STEPS
+part = HS.replace('NMsg', 'NHm').replace('nmsg_', 'nhm_').replace('.nmsg', '.nhm').replace('nm_', 'nc_').replace('NM.', 'NC.').replace('NM ', 'NC ').replace('isMessage', 'isConnection').replace('`message` entry', '`heartbeat` entry').replace("nothing is delivered to the application as a message", "no heartbeat is accepted")
+body = (body + part).replace('nc_', 'nh_').replace('NC.', 'NH.').replace('NC ', 'NH ').replace('isConnection', 'isHb')
+HH = rd('EIO/Lemmas/HbLog.lean'); HH = HH[:HH.index('structure NH')]
+wr('EIO/Lemmas/HbLog.lean', HH + body + '\nend EIO.Ses\n')
 print("chains regenerated into", OUT)
